@@ -13,6 +13,7 @@ RULE = ('(a) every pattern of (buy|sell) x (smaller|equal|larger than the curren
         ' Widened after seeded changes: 15% of the ladders use positions of 1e5-5e6 units reduced to / flipped by a few units; several portfolios holding the same asset; repeated marks at one instant.')
 RULE += " Six portfolio-construction driver cases per broker shard: after each portfolio construction (nothing submitted yet) broker.get_portfolio_as_dict must equal the portfolio's own report and contain no zero-quantity entry."
 RULE += ' Kept handles and emptied/kept report copies as in C01 (also in the portfolio-level ladders).'
+RULE += ' A refused request must leave the holdings report unchanged. Composite: a market-neutral book (long q / short q quoted alike, both legs re-marked at the same mid: market value exactly 0.0), then the quotes part and the clock moves on.'
 ASSUMPTIONS = [
     'market value is one float multiplication: compared at 1e-12 relative; sums at 1e-9',
     'icontract class invariants (no flat position kept; equity == cash + market value) are evaluated on every '
